@@ -25,7 +25,7 @@ use std::io::Write;
 use std::sync::atomic::{AtomicBool, AtomicU64, AtomicUsize, Ordering::SeqCst};
 use std::sync::{mpsc, Arc, Mutex};
 use std::time::{Duration, Instant};
-use verif_harness::util::{catch, quiet_panics, Rng};
+use verif_harness::util::{quiet_panics, Rng, LAST_PANIC_LOC};
 
 const STACK: usize = 256 << 20;
 const NMOD: usize = 3;
@@ -123,6 +123,24 @@ fn gen_menu(rng: &mut Rng, nf: usize, nq: usize) -> Vec<Query> {
         m.push(Query { kind, file, anchor, inner, delta });
     }
     m
+}
+
+/// catch_unwind that also names a salsa `Cancelled` payload escaping from the code under test (it is thrown
+/// with resume_unwind, so the panic hook never sees it)
+fn catch<T>(f: impl FnOnce() -> T) -> Result<T, String> {
+    LAST_PANIC_LOC.with(|l| l.borrow_mut().clear());
+    match std::panic::catch_unwind(std::panic::AssertUnwindSafe(f)) {
+        Ok(v) => Ok(v),
+        Err(p) => {
+            let msg = if p.downcast_ref::<ide::Cancelled>().is_some() {
+                "salsa Cancelled unwound out of the ide API instead of being returned as Err(Cancelled)".to_string()
+            } else {
+                p.downcast_ref::<String>().cloned().or_else(|| p.downcast_ref::<&str>().map(|s| s.to_string())).unwrap_or_else(|| "unknown panic".into())
+            };
+            let loc = LAST_PANIC_LOC.with(|l| l.borrow().clone());
+            Err(format!("{msg} @ {loc}"))
+        }
+    }
 }
 
 fn fnv(s: &str) -> String {
